@@ -48,6 +48,12 @@ type workload struct {
 	SnapYields int            `json:"snap_yields"` // extra scheduling points inside one snap call (slow snapping)
 	SrcYields  int            `json:"src_yields"`  // extra scheduling points per feature in the reader (slow reader)
 	TgtYields  int            `json:"tgt_yields"`  // extra scheduling points per received feature (slow target)
+	// slowness in simulated TIME (the bubble's fake clock): what timer-based code reacts to
+	FlushSleepMs map[string]int `json:"flush_sleep_ms,omitempty"` // per target: duration of the final flush
+	RecvSleepMs  map[string]int `json:"recv_sleep_ms,omitempty"`  // per target: handling time per feature
+	SnapSleepMs  int            `json:"snap_sleep_ms,omitempty"`
+	SrcSleepMs   int            `json:"src_sleep_ms,omitempty"`
+	SrcLingerMs  int            `json:"src_linger_ms,omitempty"` // reader keeps busy (closing its cursor) after closing the channel
 }
 
 type replayFile struct {
@@ -184,6 +190,26 @@ func genWorkload(seed uint64, mix string) (workload, simrt.FaultPlan, simrt.MapP
 	if r.Chance(0.3) {
 		w.TgtYields = 1 + r.Intn(2)
 	}
+	if r.Chance(0.25) {
+		w.FlushSleepMs, w.RecvSleepMs = map[string]int{}, map[string]int{}
+		for _, id := range ids {
+			if r.Chance(0.5) {
+				w.FlushSleepMs[strconv.Itoa(id)] = []int{50, 900, 3000, 7000, 20000, 90000}[r.Intn(6)]
+			}
+			if r.Chance(0.3) {
+				w.RecvSleepMs[strconv.Itoa(id)] = []int{5, 300, 2500, 6000}[r.Intn(4)]
+			}
+		}
+		if r.Chance(0.3) {
+			w.SnapSleepMs = []int{10, 1200, 6000}[r.Intn(3)]
+		}
+		if r.Chance(0.3) {
+			w.SrcSleepMs = []int{10, 1500, 8000}[r.Intn(3)]
+		}
+	}
+	if r.Chance(0.3) {
+		w.SrcLingerMs = []int{1, 2000, 40000}[r.Intn(3)]
+	}
 
 	// fault plan (swarm: each run enables its own subset)
 	fr := simrt.NewRNG(seed, "pipesim-faults")
@@ -292,6 +318,7 @@ func (s *fakeSource) ReadFeatures(ch chan<- processing.Feature) {
 		for k := 0; k < s.w.SrcYields; k++ {
 			simrt.YieldAs("src", "src:slow")
 		}
+		simSleep(s.w.SrcSleepMs)
 		simrt.YieldAs("src", "src:send")
 		ch <- f
 		s.h.mu.Lock()
@@ -303,6 +330,20 @@ func (s *fakeSource) ReadFeatures(ch chan<- processing.Feature) {
 	s.h.mu.Lock()
 	s.h.srcClosed = true
 	s.h.mu.Unlock()
+	// like the real reader, which still closes its cursor after closing the channel
+	if s.w.SrcLingerMs > 0 {
+		simrt.YieldAs("src", "src:linger")
+		simSleep(s.w.SrcLingerMs)
+		simrt.YieldAs("src", "src:return")
+	}
+}
+
+// simSleep lets simulated time pass for the calling goroutine (fake clock inside a
+// bubble; skipped in the free-running pass, where it would be real time).
+func simSleep(ms int) {
+	if ms > 0 && simrt.Active() {
+		time.Sleep(time.Duration(ms) * time.Millisecond)
+	}
 }
 
 type delivery struct {
@@ -355,11 +396,13 @@ func (t *fakeTarget) WriteFeatures(ch <-chan processing.Feature) {
 		for k := 0; k < t.h.w.TgtYields; k++ {
 			simrt.YieldAs(name, "tgt:slow")
 		}
+		simSleep(t.h.w.RecvSleepMs[strconv.Itoa(t.id)])
 	}
 	// the final flush: real work a target still has to do after its channel closed
 	for k := 0; k < t.flush; k++ {
 		simrt.YieldAs(name, "tgt:flush")
 	}
+	simSleep(t.h.w.FlushSleepMs[strconv.Itoa(t.id)])
 	t.h.mu.Lock()
 	t.done = true
 	t.h.mu.Unlock()
@@ -383,6 +426,7 @@ func (h *harness) tableSnap(p geom.Polygon, tmIDs []int) map[int][]geom.Polygon 
 	for k := 0; k < h.w.SnapYields; k++ {
 		simrt.Yield("snap:slow")
 	}
+	simSleep(h.w.SnapSleepMs)
 	fid, part := int(p[0][0][0]), int(p[0][0][1])
 	h.mu.Lock()
 	h.snapCalls++
@@ -878,7 +922,7 @@ func mkReplay(job *simh.Job, seed uint64, w workload, fp simrt.FaultPlan, mp sim
 	return replayFile{Property: job.Property, Engine: "pipesim", Mix: job.Mix, Seed: seed, Workload: w, Faults: fp,
 		MapPolicy: mp.String(), MapSeed: mapSeed, Tape: rr.sim.Tape, Violation: rr.violation,
 		ShrinkArrays: []string{"workload.features", "workload.targets", "workload.features.*.parts", "workload.features.*.cols"},
-		ShrinkInts:   []string{"workload.snap_yields", "workload.src_yields", "workload.tgt_yields", "workload.flush.*"},
+		ShrinkInts:   []string{"workload.snap_yields", "workload.src_yields", "workload.tgt_yields", "workload.flush.*", "workload.flush_sleep_ms.*", "workload.recv_sleep_ms.*", "workload.snap_sleep_ms", "workload.src_sleep_ms", "workload.src_linger_ms"},
 		Trace:        rr.sim.Trace}
 }
 
